@@ -618,10 +618,16 @@ func history(run *mon.Run, name string, seed int64) (res caseResult) {
 				continue
 			}
 			m := w.cur
-			// Dial every wire of the master connection first. Without this the driver also runs into a race inside rueidis that
-			// is reported separately (VERIF_C23_LAZYWIRE=1 brings it back): a wire that is being dialled lazily while
-			// the connection is closed is installed afterwards, so the closed connection keeps serving traffic.
-			if os.Getenv("VERIF_C23_LAZYWIRE") == "" {
+			// Half of the episodes dial every wire of the master connection first; the other half leave wires to be dialled
+			// lazily while the connection is being closed (repaired defect C23-F2: such a wire used to be installed over the
+			// closed connection, which then kept serving primary traffic). VERIF_C23_LAZYWIRE=0 / 1 forces one of the two.
+			lazy := rng.Intn(2) == 0
+			if v := os.Getenv("VERIF_C23_LAZYWIRE"); v != "" {
+				lazy = v == "1"
+			}
+			if lazy {
+				run.Observe("episodes_with_lazily_dialled_wires", 1)
+			} else {
 				synctest.Wait()
 				w.traffic(client, st, "w", 48, "")
 				synctest.Wait()
